@@ -29,7 +29,7 @@ class Run:
         self.budget = budget if budget is not None else prop.budgets[tier]
         self.driver = core.Driver(self.pid)
         self.findings = core.known_findings(self.pid)
-        self.finding_classes = {c for _, c, _ in self.findings}
+        self.finding_classes = {c for _, c, _, _ in self.findings}
         self.evaluations = 0
         self.nontrivial = set()
         self.dist = {}
@@ -79,8 +79,9 @@ class Run:
                 self.model_spec_failures.append((inp, tr, model_tr, spec_model))
             if not impl_ok:
                 clauses = spec_impl[1:] if isinstance(spec_impl, list) else [spec_impl]
-                if in_class:
-                    for c in in_class:
+                covering = [c for c in in_class if self.covers(c, clauses)]
+                if covering:
+                    for c in covering:
                         self.finding_hits.setdefault(c, (inp, tr, clauses))
                 else:
                     self.spec_failures.append((inp, tr, model_tr, clauses))
@@ -93,6 +94,13 @@ class Run:
             results.append((agree, impl_ok, in_class))
         return results
 
+    def covers(self, cls, clauses):
+        """does a listed finding of class `cls` account for a failure of exactly these clauses?"""
+        for _, c, _, only in self.findings:
+            if c == cls and (only is None or set(map(str, clauses)) <= only):
+                return True
+        return False
+
     def fails(self, inp):
         """does the implementation break the spec on this input (outside the finding classes)?"""
         try:
@@ -102,8 +110,10 @@ class Run:
         rep = self.driver.ask([(inp, tr)])[0]
         if not isinstance(rep, list) or len(rep) != 4:
             return None
-        if rep[1] != 'ok' and not [c for c in rep[3] if c in self.finding_classes]:
-            return (inp, tr, rep[0], rep[1][1:] if isinstance(rep[1], list) else [rep[1]])
+        if rep[1] != 'ok':
+            clauses = rep[1][1:] if isinstance(rep[1], list) else [rep[1]]
+            if not [c for c in rep[3] if c in self.finding_classes and self.covers(c, clauses)]:
+                return (inp, tr, rep[0], clauses)
         return None
 
     def differs(self, inp):
@@ -326,7 +336,7 @@ def main():
     # 6. decision
     violation = None
     for cls, (inp, tr, clauses) in sorted(run.finding_hits.items()):
-        text = [t for i, c, t in run.findings if c == cls][0]
+        text = [t for i, c, t, _ in run.findings if c == cls][0]
         print('KNOWN-FINDING: property=%s %s [class %s, clauses %s, e.g. input %s]' % (pid, text, cls, ','.join(map(str, clauses)), sx(inp)[:300]))
     for cls, cnt in sorted(run.finding_fixed.items()):
         if cls not in run.finding_hits:
